@@ -86,10 +86,10 @@ def checkEdges (engine path : String) (os : List Obj) (es : List Edge) : Option 
     | first :: _ :: _, some last =>
       match findObj os e.src, findObj os e.dst with
       | some s, some d =>
-        if !endsOnExtent tol s first then
+        if !endsOnExtent tol s e.srcPerim first then
           return some (.specfalse s!"start-off-source:{featureClass e s}:{engine}"
             s!"board {path}: edge {e.id} starts at {ptStr first}, source {s.id} shape={s.shape} {boxStr s.box} label={s.labelPos} 3d={s.is3d} multiple={s.multiple}")
-        if !endsOnExtent tol d last then
+        if !endsOnExtent tol d e.dstPerim last then
           return some (.specfalse s!"end-off-destination:{featureClass e d}:{engine}"
             s!"board {path}: edge {e.id} ends at {ptStr last}, destination {d.id} shape={d.shape} {boxStr d.box} label={d.labelPos} 3d={d.is3d} multiple={d.multiple}")
       | _, _ => return some (.bad s!"board {path}: endpoint of {e.id} not in the dump")
